@@ -127,6 +127,8 @@ pub struct World {
     /// keep the future of a caller that has resolved until it is released explicitly (as
     /// `join!` / `select!` loops do); default: drop it right after it resolves
     pub retain_done: bool,
+    /// ticks taken although a woken caller had not been polled (late-poll deviations)
+    pub late_ticks: usize,
     root: Arc<RootWake>,
     // last: dropped after callers (futures may hold timers)
     holder: RtHolder,
@@ -196,6 +198,7 @@ impl World {
             log: Vec::new(),
             trace: false,
             retain_done: false,
+            late_ticks: 0,
             root,
             holder: RtHolder { guard: Some(guard), rt: Some(rt) },
         }
